@@ -94,6 +94,10 @@ func c10Ops() []c10Op {
 		}}, ""},
 		c10Op{op{"send $mw world->x", 0, func() gen.Stmt { return sv(&gen.SentLit{E: v("mw")}, sa("world"), da("x")) }}, "mw"},
 		c10Op{op{"send $bw world->x", 0, func() gen.Stmt { return sv(&gen.SentLit{E: v("bw")}, sa("world"), da("x")) }}, "bw"},
+		// an account whose name merely starts with "world" is an ordinary account: its balance matters
+		c10Op{op{"send3 {world:fees b}->x", 0, func() gen.Stmt {
+			return sv(&gen.SentLit{E: gen.Mon(U, "3")}, lst(sa("world:fees"), sa("b")), da("x"))
+		}}, ""},
 		c10Op{op{"send2 $w od2 ->x", 0, func() gen.Stmt {
 			return sv(&gen.SentLit{E: gen.Mon(U, "2")}, &gen.SrcOverdraft{Addr: v("w"), Bounded: gen.Mon(U, "2")}, da("x"))
 		}}, "w"},
@@ -120,7 +124,7 @@ func runC10(w *mc.Worker) {
 	b := bigs(0, 2, 5)
 	aeur := bigs(0, 3)
 	name := "d2-L1"
-	bounds := "<= 2 declarations, 1 statement out of 33; sheets a in {0,1,3,6,-2}, b in {0,2,5}, x=0, a/EUR in {0,3}; meta acc in {a,x}; $w in {a,b,world}; 4 store behaviours"
+	bounds := "<= 2 declarations, 1 statement out of 34; sheets a in {0,1,3,6,-2}, b in {0,2,5}, x=0, a/EUR in {0,3}; meta acc in {a,x}; $w in {a,b,world,world:fees}; 4 store behaviours"
 	type stage struct {
 		name, bounds    string
 		maxDecl, maxLen int
@@ -128,12 +132,12 @@ func runC10(w *mc.Worker) {
 	}
 	stages := []stage{{name, bounds, maxDecl, maxLen, 1}}
 	if w.Tier == "quick" {
-		stages = append(stages, stage{"d1-L2", "<= 1 declaration, 2 statements out of 33; same inputs", 1, 2, 2})
+		stages = append(stages, stage{"d1-L2", "<= 1 declaration, 2 statements out of 34; same inputs", 1, 2, 2})
 	} else {
 		a = append(a, H)
 		stages = []stage{
-			{"d2-L2", "<= 2 declarations, 1..2 statements out of 33; sheets a in {0,1,3,6,-2,H}, b in {0,2,5}, a/EUR in {0,3}; meta acc in {a,x}; $w in {a,b,world}; 4 store behaviours", 2, 2, 1},
-			{"d1-L3", "<= 1 declaration, 3 statements out of 33; same inputs", 1, 3, 3},
+			{"d2-L2", "<= 2 declarations, 1..2 statements out of 34; sheets a in {0,1,3,6,-2,H}, b in {0,2,5}, a/EUR in {0,3}; meta acc in {a,x}; $w in {a,b,world,world:fees}; 4 store behaviours", 2, 2, 1},
+			{"d1-L3", "<= 1 declaration, 3 statements out of 34; same inputs", 1, 3, 3},
 		}
 	}
 	flags := map[string]struct{}{interpreter.ExperimentalOverdraftFunctionFeatureFlag: {}}
@@ -183,6 +187,7 @@ func runC10(w *mc.Worker) {
 						"a": {"USD": a[in.Choose(len(a))], "EUR": aeur[in.Choose(len(aeur))]},
 						"b": {"USD": b[in.Choose(len(b))]},
 						"x": {"USD": bi(7)},
+						"world:fees": {"USD": bi(4)},
 						// the ledger's own view of @world (usually negative): must never be asked for nor matter
 						"world": {"USD": bi(-100)},
 					}
@@ -192,7 +197,7 @@ func runC10(w *mc.Worker) {
 						meta["b"] = map[string]string{"acc": []string{"a", "x"}[in.Choose(2)]}
 					}
 					if have["w"] || have["bw"] {
-						vars["w"] = []string{"a", "b", "world"}[in.Choose(3)]
+						vars["w"] = []string{"a", "b", "world", "world:fees"}[in.Choose(4)]
 					}
 					inp := ref.Inputs{Vars: vars, Bal: bal, Meta: meta, OverdraftFlag: true}
 					model := ref.Run(prog, inp)
